@@ -400,15 +400,15 @@ func c08Limbs(r *core.Run, p *core.Program, variant string) {
 		noStore bool
 	}
 	var cs []contract
-	cs = append(cs, contract{fn: "Mul", defIn: 8, outMag: 1, outPar: "r", label: "Mul(mag 8, mag 8) -> mag 1"})
-	cs = append(cs, contract{fn: "Sqr", defIn: 8, outMag: 1, outPar: "r", label: "Sqr(mag 8) -> mag 1"})
-	cs = append(cs, contract{fn: "Normalize", defIn: 16, outMag: 0, outPar: "r", label: "Normalize(mag <= 16) -> limbs in canonical range"})
-	cs = append(cs, contract{fn: "SetB32", defIn: 1, outMag: 0, outPar: "r", label: "SetB32 -> limbs in canonical range"})
+	cs = append(cs, contract{fn: "Mul", defIn: 8, outMag: 1, outPar: "#1", label: "Mul(mag 8, mag 8) -> mag 1"})
+	cs = append(cs, contract{fn: "Sqr", defIn: 8, outMag: 1, outPar: "#1", label: "Sqr(mag 8) -> mag 1"})
+	cs = append(cs, contract{fn: "Normalize", defIn: 16, outMag: 0, outPar: "#0", label: "Normalize(mag <= 16) -> limbs in canonical range"})
+	cs = append(cs, contract{fn: "SetB32", defIn: 1, outMag: 0, outPar: "#0", label: "SetB32 -> limbs in canonical range"})
 	for m := int64(1); m <= 8; m++ {
-		cs = append(cs, contract{fn: "Negate", defIn: m, consts: map[string]*big.Int{"m": big.NewInt(m)}, outMag: m + 1, outPar: "r", label: fmt.Sprintf("Negate(mag %d, m=%d) -> mag %d", m, m, m+1)})
+		cs = append(cs, contract{fn: "Negate", defIn: m, consts: map[string]*big.Int{"#2": big.NewInt(m)}, outMag: m + 1, outPar: "#1", label: fmt.Sprintf("Negate(mag %d, m=%d) -> mag %d", m, m, m+1)})
 	}
-	cs = append(cs, contract{fn: "SetAdd", inMag: map[string]int64{"r": 3, "a": 5}, outMag: 8, outPar: "r", label: "SetAdd(mag 3 += mag 5) -> mag 8"})
-	cs = append(cs, contract{fn: "MulInt", defIn: 1, consts: map[string]*big.Int{"a": big.NewInt(8)}, outMag: 8, outPar: "r", label: "MulInt(mag 1, 8) -> mag 8"})
+	cs = append(cs, contract{fn: "SetAdd", inMag: map[string]int64{"#0": 3, "#1": 5}, outMag: 8, outPar: "#0", label: "SetAdd(mag 3 += mag 5) -> mag 8"})
+	cs = append(cs, contract{fn: "MulInt", defIn: 1, consts: map[string]*big.Int{"#1": big.NewInt(8)}, outMag: 8, outPar: "#0", label: "MulInt(mag 1, 8) -> mag 8"})
 	for _, c := range cs {
 		fn := meth(c.fn)
 		key := variant + "/" + c.label
@@ -486,6 +486,17 @@ func c08Alias(r *core.Run, p *core.Program) {
 			pairs, probs := ac.Check(fn)
 			if pairs == 0 {
 				continue
+			}
+			// an unexported helper can only be entered from the package: a pair of record parameters that
+			// receives, at every call site, a fresh local on one side cannot be the same record
+			if !named.Method(i).Exported() {
+				kept := probs[:0]
+				for _, pb := range probs {
+					if c08MayAliasAtCalls(p, fn, pb.Write.Param, pb.Read.Param) {
+						kept = append(kept, pb)
+					}
+				}
+				probs = kept
 			}
 			n++
 			key := core.FuncName(fn)
@@ -816,4 +827,30 @@ func c08InfinityDefined(r *core.Run, p *core.Program, rule string) {
 var c08InPlace = map[string]string{
 	"(*lib/secp256k1.XY).SetXYZ#1":      "the Jacobian input is rescaled to z = 1 in place: same point, same flag",
 	"(*lib/secp256k1.XY).ParsePubkey#0": "the 65-byte branch stores x and y directly and leaves the flag as it was; the result is only used when IsValid (which refuses a record flagged infinite) returned true",
+}
+
+// c08MayAliasAtCalls: can parameters i and j of fn receive the same record?  Decided over the static call
+// sites in the module: a site where one of the two arguments is the address of a local variable of the
+// caller and the other argument is something else cannot pass one record twice.  No call site, or a site
+// that does not have this form: may alias.
+func c08MayAliasAtCalls(p *core.Program, fn *ssa.Function, i, j int) bool {
+	sites := 0
+	for _, f := range p.ModuleFuncs() {
+		for _, c := range an.Calls(f, false) {
+			if an.StaticCallee(c) != fn {
+				continue
+			}
+			a := c.Common().Args
+			if i >= len(a) || j >= len(a) {
+				return true
+			}
+			sites++
+			_, li := a[i].(*ssa.Alloc)
+			_, lj := a[j].(*ssa.Alloc)
+			if !(li || lj) || a[i] == a[j] {
+				return true
+			}
+		}
+	}
+	return sites == 0
 }
